@@ -29,6 +29,10 @@ def obligations(tier):
                       funcs=(SY + "BPMEvents._index_of_proximal_event",), bounds=f"{kb} tempo events with symbolic ticks, every hint"))
     if tier == "thorough":
         obs.append(Ob("C01.long_map.timestamp.K18", "CH", "harness.h_big", "timestamp_big", 2400, {"VF_KB": 18}, funcs=(SY + "BPMEvents.timestamp_at_tick",)))
+    obs.append(Ob("C01.time_add", "CH", "harness.h_extra", "time_add_unit", 300, funcs=(TM + "add",),
+                  bounds="6 representative stamps (incl. several days) x 8 offsets x float/timedelta form: exact timedelta addition"))
+    obs.append(Ob("C01.anchors_ignored", "CH", "harness.h_extra", "anchors_do_not_move_time", 600, funcs=(SY + "SyncTrack.from_chart_lines",),
+                  bounds="an anchor line with an arbitrary microsecond value never changes any tempo / signature / queried timestamp"))
     for kind in range(6):
         obs.append(Ob(f"C01.constructor.{['TS','SP','TE','TXT','SEC','LYR'][kind]}", "CH", "harness.h_events", "constructor_dataflow", 120,
                       {"VF_KIND": kind}, funcs=(SY + "TimeSignatureEvent.from_parsed_data", IN + "SpecialEvent.from_parsed_data",
